@@ -15,6 +15,7 @@ _NAMES = {
     'reindex': 'container',
     'labels': 'container',
     'pairs': 'container',
+    'labels_sys': 'container',
     'alias': 'alias',
     'linker': 'linker',
 }
